@@ -15,8 +15,13 @@ Re-extracts, 1:1 and textually, the tables the C16 model depends on from the rep
     (pinocchio `RENT_ID`, the value `Sysvar<Rent>` defaults to on the client path);
   * the seed list and program of `AssociatedToken::find_address_with_bump`.
 
-Anything it does not understand is an error (exit 1): a changed source shape must not be silently
-mapped onto the old table. The previous output is diffed and the diff printed (bin/check keeps the
+Expressions are EVALUATED (`ceval`: literals in any base with `_`/suffixes, `[e; n]`, arrays, byte strings,
+`pubkey!`, `Pubkey::new_from_array`, same-crate `const` items, `| << + - *`, `size_of::<prim>()`), so the
+tables depend on values, never on how a value is spelled; attributes, comments, `use` and item order do not
+matter. An expression it cannot evaluate keeps the item's previously generated VALUE and prints
+`gen_spl_tables: FALLBACK <item>: <reason>` (exit 0; bin/check records the line in the evidence) — safe because
+the correspondence run compares every table entry with the compiled code (`table …` ops). A changed source
+SHAPE (unknown field/wrapper type, missing item) is still an error (exit 1). The previous output is diffed and the diff printed (bin/check keeps the
 tail in the evidence).
 """
 import difflib, glob, os, re, sys
@@ -79,6 +84,281 @@ def split_top(s):
     return [p.strip() for p in parts if p.strip()]
 
 
+# --------------------------------------------------------------------------------------------------
+# Rust constant expressions: VALUES, not text. Everything the tables take from an expression goes
+# through `ceval`; an expression it cannot evaluate raises Unknown, and the item falls back (see `item`).
+
+class Unknown(Exception):
+    pass
+
+
+INT_TYPES = {"u8": 1, "i8": 1, "u16": 2, "i16": 2, "u32": 4, "i32": 4, "u64": 8, "i64": 8, "u128": 16, "i128": 16,
+             "usize": 8, "isize": 8, "bool": 1}
+TOK = re.compile(r"""\s*(?:
+    (?P<bstr>b"(?:[^"\\]|\\.)*") | (?P<str>"(?:[^"\\]|\\.)*") | (?P<bchar>b'(?:[^'\\]|\\.)') |
+    (?P<num>0[xX][0-9a-fA-F_]+(?:[ui](?:8|16|32|64|128|size))?|0[bB][01_]+(?:[ui](?:8|16|32|64|128|size))?|0[oO][0-7_]+(?:[ui](?:8|16|32|64|128|size))?|[0-9][0-9_]*(?:[ui](?:8|16|32|64|128|size))?) |
+    (?P<id>[A-Za-z_][A-Za-z0-9_]*!?) | (?P<op><<|>>|::|[\[\]();,+\-*|&<>.])
+)""", re.X)
+
+
+def tokenize(src):
+    out, i = [], 0
+    src = src.strip()
+    while i < len(src):
+        m = TOK.match(src, i)
+        if not m or m.end() == i:
+            raise Unknown(f"cannot tokenize `{src[i:i+20]}`")
+        k = m.lastgroup
+        out.append((k, m.group(k)))
+        i = m.end()
+    return out
+
+
+def unescape_bytes(body):
+    out, i = [], 0
+    while i < len(body):
+        c = body[i]
+        if c == "\\":
+            n = body[i + 1]
+            if n == "x":
+                out.append(int(body[i + 2:i + 4], 16)); i += 4; continue
+            out.append({"n": 10, "r": 13, "t": 9, "0": 0, "\\": 92, '"': 34, "'": 39}.get(n, ord(n))); i += 2; continue
+        out.append(ord(c)); i += 1
+    return out
+
+
+class CEval:
+    """recursive descent over: | << + - * unary `as`, literals in any base with `_` and suffixes, `[e; n]`,
+    `[a, b, …]`, b"…", b'x', (e), size_of::<T>(), pubkey!("…"), Pubkey::new_from_array(e),
+    Pubkey::from_str_const("…"), paths to `const` items of the same crate (resolved, bounded depth)."""
+
+    def __init__(self, toks, consts, depth):
+        self.t, self.i, self.consts, self.depth = toks, 0, consts, depth
+
+    def peek(self):
+        return self.t[self.i] if self.i < len(self.t) else (None, None)
+
+    def eat(self, val=None):
+        k, v = self.peek()
+        if k is None or (val is not None and v != val):
+            raise Unknown(f"expected `{val}`, found `{v}`")
+        self.i += 1
+        return k, v
+
+    def parse(self):
+        v = self.or_()
+        if self.i != len(self.t):
+            raise Unknown(f"trailing tokens from `{self.peek()[1]}`")
+        return v
+
+    def binop(self, sub, ops):
+        v = sub()
+        while self.peek()[1] in ops:
+            op = self.eat()[1]
+            w = sub()
+            if not (isinstance(v, int) and isinstance(w, int)):
+                raise Unknown(f"`{op}` on a non-integer")
+            v = {"|": v | w, "<<": v << w, ">>": v >> w, "+": v + w, "-": v - w, "*": v * w}[op]
+        return v
+
+    def or_(self):
+        return self.binop(self.shift, ("|",))
+
+    def shift(self):
+        return self.binop(self.add, ("<<", ">>"))
+
+    def add(self):
+        return self.binop(self.mul, ("+", "-"))
+
+    def mul(self):
+        return self.binop(self.unary, ("*",))
+
+    def unary(self):
+        while self.peek()[1] in ("&", "*"):
+            self.eat()
+        v = self.primary()
+        while self.peek() == ("id", "as"):
+            self.eat()
+            ty = self.eat()[1]
+            if ty not in INT_TYPES or not isinstance(v, int):
+                raise Unknown(f"cast to `{ty}`")
+            if ty.startswith("u"):
+                v &= (1 << (8 * INT_TYPES[ty])) - 1
+        return v
+
+    def path(self):
+        segs = [self.eat()[1]]
+        while self.peek()[1] == "::":
+            self.eat()
+            if self.peek()[1] == "<":      # turbofish: collect `<T>`
+                self.eat("<")
+                ty = self.eat()[1]
+                self.eat(">")
+                segs.append("<" + ty + ">")
+            else:
+                segs.append(self.eat()[1])
+        return segs
+
+    def primary(self):
+        k, v = self.peek()
+        if k == "num":
+            self.eat()
+            body = re.sub(r"[ui](8|16|32|64|128|size)$", "", v) if not v.lower().startswith("0x") else re.sub(r"(?<=[0-9a-fA-F_])[ui](8|16|32|64|128|size)$", "", v)
+            return int(body.replace("_", ""), 0) if body[:2].lower() in ("0x", "0b", "0o") else int(body.replace("_", ""))
+        if k == "bstr":
+            self.eat(); return unescape_bytes(v[2:-1])
+        if k == "bchar":
+            self.eat(); return unescape_bytes(v[2:-1])[0]
+        if v == "(":
+            self.eat(); x = self.or_(); self.eat(")"); return x
+        if v == "[":
+            self.eat()
+            if self.peek()[1] == "]":
+                self.eat(); return []
+            first = self.or_()
+            if self.peek()[1] == ";":
+                self.eat(); n = self.or_(); self.eat("]")
+                if not isinstance(first, int) or not isinstance(n, int):
+                    raise Unknown("`[e; n]` with non-integer parts")
+                return [first] * n
+            items = [first]
+            while self.peek()[1] == ",":
+                self.eat()
+                if self.peek()[1] == "]":
+                    break
+                items.append(self.or_())
+            self.eat("]")
+            if not all(isinstance(x, int) for x in items):
+                raise Unknown("nested array")
+            return items
+        if k == "id":
+            if v in ("pubkey!", "solana_pubkey::pubkey!"):
+                self.eat(); self.eat("("); s = self.eat()[1]; self.eat(")")
+                return b58(s[1:-1])
+            segs = self.path()
+            last = segs[-1]
+            if last == "pubkey!":
+                self.eat("("); s = self.eat()[1]; self.eat(")"); return b58(s[1:-1])
+            if len(segs) >= 2 and segs[-2] == "size_of" and last.startswith("<"):
+                self.eat("("); self.eat(")")
+                ty = last[1:-1]
+                if ty not in INT_TYPES:
+                    raise Unknown(f"size_of::<{ty}>")
+                return INT_TYPES[ty]
+            if last in ("new_from_array", "from") and "Pubkey" in segs and self.peek()[1] == "(":
+                self.eat("("); x = self.or_(); self.eat(")")
+                if not (isinstance(x, list) and len(x) == 32):
+                    raise Unknown("Pubkey::new_from_array of a non-[u8; 32]")
+                return x
+            if last == "from_str_const" and self.peek()[1] == "(":
+                self.eat("("); s = self.eat()[1]; self.eat(")"); return b58(s[1:-1])
+            if last in ("MAX", "MIN") and len(segs) == 2 and segs[0] in INT_TYPES and segs[0].startswith("u"):
+                return (1 << (8 * INT_TYPES[segs[0]])) - 1 if last == "MAX" else 0
+            if self.peek()[1] == "(":
+                raise Unknown(f"call of `{'::'.join(segs)}`")
+            # a const item of the same crate
+            if self.depth <= 0:
+                raise Unknown(f"const `{last}`: resolution depth exceeded")
+            cands = self.consts.get(last, [])
+            vals = []
+            for e in cands:
+                vals.append(ceval(e, self.consts, self.depth - 1))
+            if not vals:
+                raise Unknown(f"unknown name `{'::'.join(segs)}`")
+            if any(x != vals[0] for x in vals):
+                raise Unknown(f"const `{last}` is defined more than once with different values")
+            return vals[0]
+        raise Unknown(f"unexpected `{v}`")
+
+
+def ceval(expr, consts=None, depth=2):
+    return CEval(tokenize(expr), consts or {}, depth).parse()
+
+
+def init_after(src, head_re):
+    """initializer expression of the first `…head… = EXPR;` (the `;` at bracket depth 0), or None"""
+    m = re.search(head_re + r"\s*=\s*", src)
+    if not m:
+        return None
+    depth, i = 0, m.end()
+    while i < len(src):
+        c = src[i]
+        if c in "([{":
+            depth += 1
+        elif c in ")]}":
+            depth -= 1
+        elif c == ";" and depth == 0:
+            return src[m.end():i].strip()
+        i += 1
+    return None
+
+
+def crate_consts(crate_dir):
+    """name -> [initializer expressions] of every `const NAME: T = EXPR;` in the crate (comments stripped)"""
+    out = {}
+    for root, _, files in os.walk(os.path.join(REPO, crate_dir, "src")):
+        for f in files:
+            if f.endswith(".rs"):
+                src = strip_comments(open(os.path.join(root, f)).read())
+                for m in re.finditer(r"\bconst\s+([A-Z_][A-Z0-9_]*)\s*:", src):
+                    e = init_after(src[m.start():], r"\bconst\s+" + m.group(1) + r"\s*:\s*(?:\[[^\]]*\]|[^=;\[]+)")
+                    if e is not None:
+                        out.setdefault(m.group(1), []).append(e)
+    return out
+
+
+def attrs_before(src, pos):
+    """the `#[…]` attributes directly preceding position `pos` (any number, any order)"""
+    out, i = [], pos
+    while True:
+        j = i
+        while j > 0 and src[j - 1].isspace():
+            j -= 1
+        if j > 0 and src[j - 1] == "]":
+            depth, k = 0, j - 1
+            while k >= 0:
+                if src[k] == "]":
+                    depth += 1
+                elif src[k] == "[":
+                    depth -= 1
+                    if depth == 0:
+                        break
+                k -= 1
+            if k >= 1 and src[k - 1] == "#":
+                out.append(src[k - 1:j]); i = k - 1; continue
+        return out
+
+
+def repr_of(src, item_re, what):
+    m = re.search(item_re, src)
+    if not m:
+        die(f"cannot find {what}")
+    for a in attrs_before(src, m.start()):
+        mm = re.fullmatch(r"#\[\s*repr\s*\((.*)\)\s*\]", a, flags=re.S)
+        if mm:
+            return [x.strip() for x in mm.group(1).split(",")]
+    die(f"{what}: no #[repr(..)] attribute")
+
+
+# item-level fallback: an item whose expression cannot be evaluated keeps its previously generated VALUE;
+# the `table …` ops of the correspondence run compare every table entry with the compiled code, so a stale
+# value cannot survive a real difference.
+SIDE = os.path.join(VERIF, "lean", "Spl", "Spl", "Generated", "tables.json")
+PREV, CUR = {}, {}
+
+
+def item(name, thunk):
+    try:
+        v = thunk()
+    except Unknown as e:
+        if name not in PREV:
+            die(f"{name}: {e} (and no previously generated value to fall back on)")
+        v = PREV[name]
+        print(f"gen_spl_tables: FALLBACK {name}: {e}; kept the previously generated value {v}")
+    CUR[name] = v
+    return v
+
+
 def body_of(src, header_re, what):
     m = re.search(header_re, src)
     if not m:
@@ -96,21 +376,30 @@ def body_of(src, header_re, what):
     die(f"unbalanced braces in {what}")
 
 
-def parse_enum(raw, name):
+def parse_enum(raw, name, consts=None, label=None):
     """-> (repr, [(variant, payload-or-None, discriminant, index)])"""
     src = strip_comments(raw)
-    m = re.search(r"#\[repr\((\w+)\)\]\s*pub enum " + name + r"\b", src)
-    if not m:
-        die(f"enum {name}: no `#[repr(..)]` directly before `pub enum {name}`")
-    rep = m.group(1)
+    reps = [r for r in repr_of(src, r"pub enum " + name + r"\b", f"enum {name}") if r in INT_TYPES]
+    if len(reps) != 1:
+        die(f"enum {name}: no integer repr")
+    rep = reps[0]
     body = strip_attrs(body_of(src, r"pub enum " + name + r"\s*\{", f"enum {name}"))
     out, nxt = [], 0
-    for idx, item in enumerate(split_top(body)):
-        mm = re.fullmatch(r"(\w+)\s*(?:\(\s*([\w:<>]+)\s*\))?\s*(?:=\s*(\d+))?", item)
+    for idx, it in enumerate(split_top(body)):
+        head, eq, expr = it.partition("=")
+        mm = re.fullmatch(r"(\w+)\s*(?:\(\s*([\w:<>]+)\s*\))?\s*", head)
         if not mm:
-            die(f"enum {name}: cannot parse variant `{item}`")
-        v, payload, explicit = mm.groups()
-        disc = int(explicit) if explicit is not None else nxt
+            die(f"enum {name}: cannot parse variant `{it}`")
+        v, payload = mm.groups()
+        if eq:
+            def ev(expr=expr):
+                x = ceval(expr, consts)
+                if not isinstance(x, int):
+                    raise Unknown("discriminant is not an integer")
+                return x
+            disc = item(f"{label or name}.disc.{v}", ev)
+        else:
+            disc = nxt
         nxt = disc + 1
         out.append((v, payload, disc, idx))
     return rep, out
@@ -156,19 +445,22 @@ def b58(s):
     return list(raw)
 
 
-def program_id(raw, prog):
+def program_id(raw, prog, consts):
     src = strip_comments(raw)
-    m = re.search(r"impl StarFrameProgram for " + prog + r"\s*\{(.*?)\n\}", src, flags=re.S)
+    m = re.search(r"impl\s+StarFrameProgram\s+for\s+" + prog + r"\s*\{", src)
     if not m:
         die(f"no `impl StarFrameProgram for {prog}`")
-    body = m.group(1)
-    mm = re.search(r'const ID: Pubkey = pubkey!\("(\w+)"\);', body)
-    if mm:
-        return b58(mm.group(1))
-    mm = re.search(r"const ID: Pubkey = Pubkey::new_from_array\(\[(\d+); 32\]\);", body)
-    if mm:
-        return [int(mm.group(1))] * 32
-    die(f"{prog}::ID: unknown form")
+    body = body_of(src[m.start():], r"impl\s+StarFrameProgram\s+for\s+" + prog + r"\s*\{", f"impl StarFrameProgram for {prog}")
+    id_expr = init_after(strip_attrs(body), r"const\s+ID\s*:\s*Pubkey")
+    if id_expr is None:
+        die(f"{prog}::ID not found")
+
+    def ev():
+        v = ceval(id_expr, consts)
+        if not (isinstance(v, list) and len(v) == 32 and all(0 <= b < 256 for b in v)):
+            raise Unknown("not a 32-byte value")
+        return v
+    return item(f"{prog}.ID", ev)
 
 
 ARG_TY = {"u8": ".u8", "u64": ".u64", "Pubkey": ".pubkey", "Option<Pubkey>": ".optPubkey",
@@ -211,8 +503,8 @@ def lean_list(xs):
     return "[" + ", ".join(str(x) for x in xs) + "]"
 
 
-def ix_set(lines, raw, enum_name, lean_name, prefix):
-    rep, variants = parse_enum(raw, enum_name)
+def ix_set(lines, raw, enum_name, lean_name, prefix, consts):
+    rep, variants = parse_enum(raw, enum_name, consts, lean_name)
     width = {"u8": 1, "u16": 2, "u32": 4, "u64": 8}.get(rep)
     if width is None:
         die(f"{enum_name}: unsupported repr {rep}")
@@ -261,15 +553,26 @@ def main():
     tok_state = read("star_frame_spl/src/token/state.rs")
     ata = read("star_frame_spl/src/associated_token.rs")
     pod = read("star_frame_spl/src/pod.rs")
+    if os.path.exists(SIDE):
+        try:
+            PREV.update(__import__("json").load(open(SIDE)))
+        except Exception:
+            pass
+    sf_consts = crate_consts("star_frame")
+    spl_consts = crate_consts("star_frame_spl")
     pin = sorted(glob.glob(os.path.expanduser("~/.cargo/registry/src/*/pinocchio-0.9.2/src/sysvars/rent.rs")))
     if not pin:
         die("pinocchio-0.9.2 source not found in the cargo registry")
-    m = re.search(r"pub const RENT_ID: Pubkey = \[([\d,\s]+)\];", open(pin[0]).read())
-    if not m:
+    rent_expr = init_after(strip_comments(open(pin[0]).read()), r"pub const RENT_ID\s*:\s*Pubkey")
+    if rent_expr is None:
         die("pinocchio RENT_ID not found")
-    rent_id = [int(x) for x in m.group(1).replace("\n", " ").split(",") if x.strip()]
-    if len(rent_id) != 32:
-        die("RENT_ID is not 32 bytes")
+
+    def ev_rent():
+        v = ceval(rent_expr)
+        if not (isinstance(v, list) and len(v) == 32):
+            raise Unknown("RENT_ID is not 32 bytes")
+        return v
+    rent_id = item("pinocchio.RENT_ID", ev_rent)
     sysvar_src = strip_comments(read("star_frame/src/account_set/sysvar.rs"))
     if not re.search(r"impl SysvarId for pinocchio::sysvars::rent::Rent\s*\{\s*fn id\(\)\s*->\s*Pubkey\s*\{\s*bytemuck::cast\(pinocchio::sysvars::rent::RENT_ID\)", sysvar_src):
         die("SysvarId for Rent no longer casts pinocchio RENT_ID")
@@ -281,18 +584,18 @@ def main():
     L.append("namespace Spl.Generated")
     L.append("open Spl")
     L.append("")
-    L.append("def systemId : List Nat := " + lean_list(program_id(system, "System")))
-    L.append("def tokenId : List Nat := " + lean_list(program_id(tok_mod, "Token")))
-    L.append("def ataId : List Nat := " + lean_list(program_id(ata, "AssociatedToken")))
+    L.append("def systemId : List Nat := " + lean_list(program_id(system, "System", sf_consts)))
+    L.append("def tokenId : List Nat := " + lean_list(program_id(tok_mod, "Token", spl_consts)))
+    L.append("def ataId : List Nat := " + lean_list(program_id(ata, "AssociatedToken", spl_consts)))
     L.append("/-- what `Sysvar<Rent>` puts in the metas when the client passes `None` (pinocchio `RENT_ID`) -/")
     L.append("def rentSysvarId : List Nat := " + lean_list(rent_id))
     L.append("")
-    ix_set(L, system, "SystemInstructionSet", "SysIx", "sys")
-    ix_set(L, tok_ix, "TokenInstructionSet", "TokIx", "tok")
-    ix_set(L, ata, "AssociatedTokenInstructionSet", "AtaIx", "ata")
+    ix_set(L, system, "SystemInstructionSet", "SysIx", "sys", sf_consts)
+    ix_set(L, tok_ix, "TokenInstructionSet", "TokIx", "tok", spl_consts)
+    ix_set(L, ata, "AssociatedTokenInstructionSet", "AtaIx", "ata", spl_consts)
 
     # AuthorityType: a borsh-derived fieldless enum is encoded as its variant INDEX (u8)
-    rep, vs = parse_enum(tok_ix, "AuthorityType")
+    rep, vs = parse_enum(tok_ix, "AuthorityType", spl_consts)
     if any(p is not None for _, p, _, _ in vs):
         die("AuthorityType: variant with payload")
     if re.search(r"borsh\(use_discriminant\s*=\s*true\)", strip_comments(tok_ix)):
@@ -306,10 +609,13 @@ def main():
     L.append("def AuthorityType.idx : AuthorityType → Nat")
     for v, _, _, i in vs:
         L.append(f"  | .{v} => {i}")
+    L.append("def AuthorityType.name : AuthorityType → String")
+    for v, _, _, i in vs:
+        L.append(f'  | .{v} => "{v}"')
     L.append("")
 
     # AccountState: CheckedBitPattern accepts exactly the declared discriminants
-    rep, vs = parse_enum(tok_state, "AccountState")
+    rep, vs = parse_enum(tok_state, "AccountState", spl_consts)
     if rep != "u8":
         die("AccountState: repr is not u8")
     L.append("/-- `AccountState` discriminants in declaration order (`#[repr(u8)]`, CheckedBitPattern) -/")
@@ -324,8 +630,9 @@ def main():
     # packed state structs
     for sname, lname in (("MintAccountData", "mintFields"), ("TokenAccountData", "tokenFields")):
         src = strip_comments(tok_state)
-        if not re.search(r"#\[repr\(C, packed\)\]\s*pub struct " + sname + r"\b", src):
-            die(f"{sname}: not `#[repr(C, packed)]` directly before the struct")
+        reps = repr_of(src, r"pub struct " + sname + r"\b", f"struct {sname}")
+        if not ("C" in reps and "packed" in reps):
+            die(f"{sname}: not `#[repr(C, packed)]`")
         fs = parse_struct(tok_state, sname)
         items = []
         for fn, ft in fs:
@@ -336,21 +643,34 @@ def main():
         L.append(f"def {lname} : List (SName × STy) := " + lean_list(items))
     for ty, nm in (("MintAccount", "mintLen"), ("TokenAccount", "tokenLen")):
         body = body_of(strip_comments(tok_state), r"impl " + ty + r"\s*\{", f"impl {ty}")
-        m = re.search(r"pub const LEN: usize = (\d+);", body)
-        if not m:
+        len_expr = init_after(body, r"pub const LEN\s*:\s*usize")
+        if len_expr is None:
             die(f"{ty}::LEN not found")
-        L.append(f"def {nm} : Nat := {m.group(1)}")
+
+        def ev_len(len_expr=len_expr):
+            v = ceval(len_expr, spl_consts)
+            if not isinstance(v, int):
+                raise Unknown("LEN is not an integer")
+            return v
+        L.append(f"def {nm} : Nat := {item(ty + '.LEN', ev_len)}")
     psrc = strip_comments(pod)
-    if not re.search(r"#\[repr\(C, packed\)\]\s*(#\[[^\]]*\]\s*)*pub struct PodOption\b", psrc):
+    reps = repr_of(psrc, r"pub struct PodOption\b", "struct PodOption")
+    if not ("C" in reps and "packed" in reps):
         die("PodOption: not `#[repr(C, packed)]`")
     pf = parse_struct(pod, "PodOption")
     parts = []
     for fn, ft in pf:
         if fn == "option":
-            m = re.fullmatch(r"\[u8;(\d+)\]", ft)
+            m = re.fullmatch(r"\[u8;(.+)\]", ft)
             if not m:
                 die(f"PodOption.option: unsupported type {ft}")
-            parts.append(f".tag {m.group(1)}")
+
+            def ev_w(m=m):
+                v = ceval(m.group(1), spl_consts)
+                if not isinstance(v, int):
+                    raise Unknown("tag width is not an integer")
+                return v
+            parts.append(f".tag {item('PodOption.option.width', ev_w)}")
         elif fn == "value" and ft == "T":
             parts.append(".value")
         else:
@@ -359,43 +679,59 @@ def main():
     L.append("def podOptionLayout : List PodPart := " + lean_list(parts))
 
     def arr(name):
-        m = re.search(r"pub const " + name + r": \[u8; (\d+)\] = \[([^\]]*)\];", psrc)
-        if not m:
+        m = re.search(r"pub const " + name + r"\s*:\s*\[u8;\s*([^\]]+)\]", psrc)
+        init = init_after(psrc, r"pub const " + name + r"\s*:\s*\[u8;\s*[^\]]+\]")
+        if not m or init is None:
             die(f"PodOption::{name} not found")
-        n, body = int(m.group(1)), m.group(2).strip()
-        mm = re.fullmatch(r"(\d+);\s*(\d+)", body)
-        vals = [int(mm.group(1))] * int(mm.group(2)) if mm else [int(x) for x in body.split(",") if x.strip()]
-        if len(vals) != n:
-            die(f"PodOption::{name}: length mismatch")
-        return vals
+
+        def ev():
+            n, vals = ceval(m.group(1), spl_consts), ceval(init, spl_consts)
+            if not (isinstance(vals, list) and isinstance(n, int) and len(vals) == n):
+                raise Unknown("length mismatch")
+            return vals
+        return item(f"PodOption.{name}", ev)
     L.append("def podNone : List Nat := " + lean_list(arr("NONE")))
     L.append("def podSome : List Nat := " + lean_list(arr("SOME")))
     L.append("")
 
     # ATA derivation
     asrc = strip_comments(ata)
-    body = body_of(asrc, r"pub fn find_address_with_bump\([^)]*\)\s*->\s*\(Pubkey, u8\)\s*\{", "find_address_with_bump")
-    m = re.fullmatch(r"\s*Pubkey::find_program_address\(\s*&\[(.*?)\]\s*,\s*&([\w:]+)\s*,?\s*\)\s*", body, flags=re.S)
-    if not m:
-        die("find_address_with_bump: body is not a single Pubkey::find_program_address(&[..], &ID) call")
     seedmap = {"wallet.as_ref()": ".wallet", "Token::ID.as_ref()": ".tokenProgram", "mint.pubkey().as_ref()": ".mint"}
-    seeds = []
-    for s in split_top(m.group(1)):
-        s = re.sub(r"\s+", "", s)
-        if s not in seedmap:
-            die(f"find_address_with_bump: unknown seed expression `{s}`")
-        seeds.append(seedmap[s])
-    progmap = {"Self::ID": ".ata", "Token::ID": ".token", "System::ID": ".system"}
-    if m.group(2) not in progmap:
-        die(f"find_address_with_bump: unknown program `{m.group(2)}`")
+    progmap = {"Self::ID": ".ata", "AssociatedToken::ID": ".ata", "Token::ID": ".token", "System::ID": ".system"}
+
+    def ev_ata():
+        mh = re.search(r"pub fn find_address_with_bump\s*\(([^)]*)\)\s*->\s*\(Pubkey, u8\)\s*\{", asrc)
+        if not mh:
+            raise Unknown("find_address_with_bump not found in its known signature")
+        body = body_of(asrc, r"pub fn find_address_with_bump\s*\([^)]*\)\s*->\s*\(Pubkey, u8\)\s*\{", "find_address_with_bump")
+        # parameter names may change: normalise the first two to wallet / mint
+        params = [x.split(":")[0].strip() for x in split_top(mh.group(1))]
+        if len(params) != 2:
+            raise Unknown("find_address_with_bump does not take two parameters")
+        for old_name, new_name in zip(params, ("wallet", "mint")):
+            body = re.sub(r"\b" + re.escape(old_name) + r"\b", new_name, body)
+        m = re.fullmatch(r"\s*Pubkey::find_program_address\(\s*&\[(.*?)\]\s*,\s*&([\w:]+)\s*,?\s*\)\s*", body, flags=re.S)
+        if not m:
+            raise Unknown("body is not a single Pubkey::find_program_address(&[..], &ID) call")
+        seeds = []
+        for sd in split_top(m.group(1)):
+            sd = re.sub(r"\s+", "", sd)
+            if sd not in seedmap:
+                raise Unknown(f"unknown seed expression `{sd}`")
+            seeds.append(seedmap[sd])
+        if m.group(2) not in progmap:
+            raise Unknown(f"unknown program `{m.group(2)}`")
+        return [seeds, progmap[m.group(2)]]
+    seeds, ata_prog = item("AssociatedToken.find_address_with_bump", ev_ata)
     L.append("/-- seed list and program of `AssociatedToken::find_address_with_bump` -/")
     L.append("def ataSeeds : List SeedTok := " + lean_list(seeds))
-    L.append(f"def ataProgram : Prog := {progmap[m.group(2)]}")
+    L.append(f"def ataProgram : Prog := {ata_prog}")
     L.append("")
     L.append("end Spl.Generated")
     text = "\n".join(L) + "\n"
 
     os.makedirs(os.path.dirname(OUT), exist_ok=True)
+    __import__("json").dump(CUR, open(SIDE, "w"), indent=0, sort_keys=True)
     old = open(OUT).read() if os.path.exists(OUT) else ""
     if old != text:
         if old:
